@@ -213,19 +213,23 @@ def instType (tns : List String) (insts : List Typename) (cpp : Option Typename)
             | s => pure s
       else pure t
 
-def instArgs (tns : List String) (insts : List Typename) (cpp : Option Typename) : List Arg → Except Err (List Arg)
+/-- the type-level instantiation function; the model uses `instType`, the specification
+    (`Spec/Subst.lean`) plugs in capture-free substitution -/
+abbrev TyInst := List String → List Typename → Option Typename → Option Typename → CType → Except Err CType
+
+def instArgs (F : TyInst) (tns : List String) (insts : List Typename) (cpp : Option Typename) : List Arg → Except Err (List Arg)
   | [] => .ok []
   | a :: as => do
-    let t ← instType tns insts cpp none a.ctype
-    let rest ← instArgs tns insts cpp as
+    let t ← F tns insts cpp none a.ctype
+    let rest ← instArgs F tns insts cpp as
     pure (⟨t, a.name, a.default⟩ :: rest)
 
-def instRet (tns : List String) (insts : List Typename) (cpp : Option Typename) (icls : Option Typename)
+def instRet (F : TyInst) (tns : List String) (insts : List Typename) (cpp : Option Typename) (icls : Option Typename)
     (r : RetType) : Except Err RetType := do
-  let t1 ← instType tns insts cpp icls r.type1
+  let t1 ← F tns insts cpp icls r.type1
   match r.type2 with
   | some t2 =>
-    let t2' ← instType tns insts cpp icls t2
+    let t2' ← F tns insts cpp icls t2
     pure ⟨t1, some t2', r.stdPrefix⟩
   | none => pure ⟨t1, none, r.stdPrefix⟩
 
@@ -383,22 +387,22 @@ structure ClsCtx where
   /-- Typename used for `This` in static return types -/
   thisTn : Typename
 
-def instCtor (cx : ClsCtx) (tmpl : Option Template) (args : List Arg) : Except Err (List ICtor) :=
+def instCtor (F : TyInst) (cx : ClsCtx) (tmpl : Option Template) (args : List Arg) : Except Err (List ICtor) :=
   mapM' (fun mi => do
-    let as ← instArgs (cx.tns ++ tmplNames tmpl) (cx.insts ++ mi) (some cx.cpp) args
+    let as ← instArgs F (cx.tns ++ tmplNames tmpl) (cx.insts ++ mi) (some cx.cpp) args
     pure (⟨cx.name, tmpl, mi, as⟩ : ICtor)) (memberInsts tmpl)
 
-def instMethod (cx : ClsCtx) (isStatic : Bool) (tmpl : Option Template) (ret : RetType) (name : String)
+def instMethod (F : TyInst) (cx : ClsCtx) (isStatic : Bool) (tmpl : Option Template) (ret : RetType) (name : String)
     (args : List Arg) (isConst : Bool) : Except Err (List IMethod) :=
   mapM' (fun mi => do
     let tns := cx.tns ++ tmplNames tmpl
     let is := cx.insts ++ mi
-    let as ← instArgs tns is (some cx.cpp) args
-    let r ← instRet tns is (some cx.cpp) (if isStatic then some cx.thisTn else none) ret
+    let as ← instArgs F tns is (some cx.cpp) args
+    let r ← instRet F tns is (some cx.cpp) (if isStatic then some cx.thisTn else none) ret
     pure (⟨instName name mi, name, tmpl, mi, r, as, isConst, isStatic⟩ : IMethod)) (memberInsts tmpl)
 
 /-- `InstantiatedClass.__init__` -/
-def instClass (c : ClassDecl) (nsPath : List String) (insts : List Typename) (newName : String)
+def instClass (F : TyInst) (c : ClassDecl) (nsPath : List String) (insts : List Typename) (newName : String)
     (nsEnums : List String := []) : Except Err IClass := do
   let tns := tmplNames c.tmpl
   if c.tmpl.isSome && tns.length != insts.length then throw .validation
@@ -410,41 +414,41 @@ def instClass (c : ClassDecl) (nsPath : List String) (insts : List Typename) (ne
     | none => pure none
     | some (.simple tn _ _) => pure (some tn)
     | some t => do
-      let t' ← instType tns insts (some (typenameOfPath nsPath)) none t
+      let t' ← F tns insts (some (typenameOfPath nsPath)) none t
       pure (some t'.typename) : Except Err (Option Typename))
   let ctors ← flatMapM' (fun m => match m with
-    | .ctor t _ as => instCtor cx t as
+    | .ctor t _ as => instCtor F cx t as
     | _ => pure []) c.members
   let statics ← flatMapM' (fun m => match m with
-    | .static t r n as => instMethod cx true t r n as false
+    | .static t r n as => instMethod F cx true t r n as false
     | _ => pure []) c.members
   let props ← flatMapM' (fun m => match m with
     | .prop v => do
-      let t ← instType tns insts (some cpp) none v.ctype
+      let t ← F tns insts (some cpp) none v.ctype
       pure [(⟨t, v.name, v.default⟩ : VarDecl)]
     | _ => pure []) c.members
   let ops ← flatMapM' (fun m => match m with
     | .op r sym as => do
-      let as' ← instArgs tns insts (some cpp) as
-      let r' ← instRet tns insts (some cpp) none r
+      let as' ← instArgs F tns insts (some cpp) as
+      let r' ← instRet F tns insts (some cpp) none r
       pure [(⟨sym, r', as'⟩ : IOp)]
     | _ => pure []) c.members
   let enums := c.members.filterMap fun m => match m with | .enum e => some e | _ => none
   let methods ← flatMapM' (fun m => match m with
-    | .method t r n as k => instMethod cx false t r n as k
+    | .method t r n as k => instMethod F cx false t r n as k
     | _ => pure []) c.members
   let dunders := c.members.filterMap fun m => match m with | .dunder n as => some (n, as) | _ => none
   pure ⟨name, c.name, c.tmpl.isSome, insts, c.isVirtual, nsPath, parent, ctors, statics, props, ops, enums, methods, dunders, nsEnums⟩
 
 /-- `InstantiatedGlobalFunction.__init__` -/
-def instFunc (tmpl : Option Template) (ret : RetType) (name : String) (args : List Arg) (nsPath : List String)
+def instFunc (F : TyInst) (tmpl : Option Template) (ret : RetType) (name : String) (args : List Arg) (nsPath : List String)
     (insts : List Typename) (newName : String) : Except Err IFunc :=
   match tmpl with
   | none => pure ⟨name, name, false, insts, ret, args, nsPath⟩
   | some ps => do
     let tns := ps.map (·.name)
-    let r ← instRet tns insts none none ret
-    let as ← instArgs tns insts none args
+    let r ← instRet F tns insts none none ret
+    let as ← instArgs F tns insts none args
     pure ⟨if newName.isEmpty then instName name insts else newName, name, true, insts, r, as, nsPath⟩
 
 /-! ### `instantiate_namespace` on the partly rewritten tree -/
@@ -543,16 +547,16 @@ def contentAtPath : List MDecl → List Nat → List MDecl
     | _ => []
 
 /-- one non-namespace, non-typedef element -/
-def instLeaf (d : Decl) (nsPath : List String) (es : List String) : Except Err (List IDecl) :=
+def instLeaf (F : TyInst) (d : Decl) (nsPath : List String) (es : List String) : Except Err (List IDecl) :=
   match d with
   | .cls c =>
     match c.tmpl with
-    | none => do let ic ← instClass c nsPath [] "" es; pure [.cls ic]
-    | some ps => mapM' (fun is => do let ic ← instClass c nsPath is "" es; pure (IDecl.cls ic)) (product (ps.map (·.insts)))
+    | none => do let ic ← instClass F c nsPath [] "" es; pure [.cls ic]
+    | some ps => mapM' (fun is => do let ic ← instClass F c nsPath is "" es; pure (IDecl.cls ic)) (product (ps.map (·.insts)))
   | .func t r n as =>
     match t with
-    | none => do let f ← instFunc none r n as nsPath [] ""; pure [.func f]
-    | some ps => mapM' (fun is => do let f ← instFunc t r n as nsPath is ""; pure (IDecl.func f)) (product (ps.map (·.insts)))
+    | none => do let f ← instFunc F none r n as nsPath [] ""; pure [.func f]
+    | some ps => mapM' (fun is => do let f ← instFunc F t r n as nsPath is ""; pure (IDecl.func f)) (product (ps.map (·.insts)))
   | .fwd v tn p => pure [.fwd v tn p]
   | .incl h => pure [.incl h]
   | .enum e => pure [.enum e]
@@ -560,17 +564,17 @@ def instLeaf (d : Decl) (nsPath : List String) (es : List String) : Except Err (
   | .typedef .. => pure []
   | .ns .. => pure []
 
-def instTypedef (root : List MDecl) (tn : Typename) (newName : String) : Except Err (List IDecl) := do
+def instTypedef (F : TyInst) (root : List MDecl) (tn : Typename) (newName : String) : Except Err (List IDecl) := do
   match ← findClassOrFunction root tn with
-  | .cls c p es => do let ic ← instClass c p tn.insts newName es; pure [.cls ic]
-  | .func t r n as p => do let f ← instFunc t r n as p tn.insts newName; pure [.func f]
+  | .cls c p es => do let ic ← instClass F c p tn.insts newName es; pure [.cls ic]
+  | .func t r n as p => do let f ← instFunc F t r n as p tn.insts newName; pure [.func f]
   | .fwd v ftn p =>
     pure [.decl ⟨if newName.isEmpty then instName ftn.name tn.insts else newName, ftn.name, tn.insts, v, p⟩]
   | .instantiated => throw .lookup
 
 /-- `instantiate_namespace` for the namespace at index path `ip` (names `nsPath`), threading the
     whole tree; returns the updated tree and the instantiated content of that namespace -/
-def instNs : Nat → List MDecl → List Nat → List String → Except Err (List MDecl × List IDecl)
+def instNs (F : TyInst) : Nat → List MDecl → List Nat → List String → Except Err (List MDecl × List IDecl)
   | 0, _, _, _ => .error .fuel
   | fuel+1, root, ip, nsPath =>
     let content := contentAtPath root ip
@@ -579,13 +583,13 @@ def instNs : Nat → List MDecl → List Nat → List String → Except Err (Lis
       match elems with
       | [] => .ok (root, acc ++ tds)
       | .leaf (.typedef tn nn) :: r => do
-        let t ← instTypedef root tn nn
+        let t ← instTypedef F root tn nn
         loop root (i + 1) r acc (tds ++ t)
       | .leaf d :: r => do
-        let x ← instLeaf d nsPath (enumNamesM content)
+        let x ← instLeaf F d nsPath (enumNamesM content)
         loop root (i + 1) r (acc ++ x) tds
       | .ns n _ :: r => do
-        let (root', c) ← instNs fuel root (ip ++ [i]) (nsPath ++ [n])
+        let (root', c) ← instNs F fuel root (ip ++ [i]) (nsPath ++ [n])
         let root'' := replaceAtPath root' (ip ++ [i]) (.done n c)
         loop root'' (i + 1) r (acc ++ [.ns n c]) tds
       | .done n c :: r => loop root (i + 1) r (acc ++ [.ns n c]) tds
@@ -601,9 +605,12 @@ mutual
 end
 
 /-- the model of `instantiate_namespace(Module.parseString(text))` -/
-def instModule (m : Module) : Except Err (List IDecl) :=
-  match instNs (depths m + 2) (toMs m) [] [""] with
+def instModuleWith (F : TyInst) (m : Module) : Except Err (List IDecl) :=
+  match instNs F (depths m + 2) (toMs m) [] [""] with
   | .ok (_, c) => .ok c
   | .error e => .error e
+
+/-- the model of `instantiate_namespace(Module.parseString(text))` -/
+def instModule (m : Module) : Except Err (List IDecl) := instModuleWith instType m
 
 end WrapModel.Inst
